@@ -327,6 +327,12 @@ pub fn c17_values(tier: Tier) -> Vec<Option<String>> {
         "gzip;q=0\n*",
         "*\ngzip;q=0",
         "identity\nidentity;q=0, gzip",
+        // obs-text (bytes >= 0x80, here as well-formed UTF-8) next to elements that allow gzip:
+        // HeaderValue::to_str() fails on these, so should_gzip says false
+        "gzip, \u{fc}",
+        "\u{e9}, *",
+        "gzip;q=1, identity;q=0.5, caf\u{e9}",
+        "\u{20ac}",
     ] {
         v.push(Some(s.to_string()));
     }
